@@ -107,11 +107,16 @@ def _with_group_empty(pattern, name):
     return pattern[:i] + '(?:)' + pattern[k:]
 
 
+# groups of the argument pattern that may stay unset on the pinned tree: the type part of an object / new id printed as [unknown]
+# (handled by the truthiness rule C01.4)
+PINNED_OPTIONAL_GROUPS = {'new_type', 'obj_type'}
+
+
 def run(ctx):
     repo = ctx.repo
     ctx.decided = ['C01.14 every decoded argument is a fresh object', 'C01.1 arg-accept', 'C01.2 arg-priority', 'C01.3 dispatch-table', 'C01.4 nullable-group truthiness',
                    'C01.5 group inventory', 'C01.6 line-accept', 'C01.7 line-direction', 'C01.8 separator agreement',
-                   'C01.10 direction flag', 'C01.11 field provenance', 'C01.12 group order', 'C01.13 every piece decoded in order']
+                   'C01.10 direction flag', 'C01.11 field provenance', 'C01.12 group order', 'C01.13 every piece decoded in order', 'C01.15 each line is decoded by itself']
     ctx.undecided = ['behaviour of the hand-written scanner argument_list_strs/end_of_str on every string',
                      'which substrings the line regex groups bind when a match is ambiguous (beyond C01.7)',
                      'numeric conversion of the matched text (int, float)']
@@ -120,6 +125,11 @@ def run(ctx):
     pm = repo.modules.get('backends.libwayland_debug_output.parse')
     if pm is None:
         raise AnalysisError('module backends.libwayland_debug_output.parse not found')
+    # ---- C01.15 a line is decoded by itself -------------------------------------------------------------------
+    # everything below speaks about message(line) for ONE line of the printer's language; that the reader applies it to each line as read -
+    # nothing joined on from its neighbours, nothing cut off - is the loop rule of C08.1, evaluated here on the same paths
+    from . import c08 as _c08
+    _c08.check_decoder_input(ctx, 'C01.15', _c08.parse_all_paths(ctx))
     init = repo.func('WlPatterns.__init__')
     env, pats = rx.fold_strings(init.node)
     f_arg = repo.func('parse.argument')
@@ -162,6 +172,11 @@ def run(ctx):
     for a in alts:
         alt_groups.append(rx.group_names(a))
         alt_nfas.append(rx.regex_nfa(a, 'full'))
+        unset_ = rx.groups_possibly_unset(a) - PINNED_OPTIONAL_GROUPS
+        if unset_:
+            # the dispatch model below knows, per alternative, which groups are set (all of them) and which may be empty; a group that may not
+            # take part in the match at all (one branch of a nested alternation, an optional part) is beyond it
+            raise AnalysisError('C01: a group of an argument alternative may stay unset in a match (%s in %s): not modelled' % (sorted(unset_), a[:60]))
 
     # ---- C01.3 dispatch table from the paths of argument() -------------------------------------
     def group_atom(atom):
